@@ -430,8 +430,26 @@ func cmdCheck(prop, tier string) int {
 	sr, v := b.explore(prop, tier, seed, workers, tc, avoid, kf, &lines, &knownHit)
 	violations += v
 
+	if prop == "C07" {
+		// second phase: lexer/parser schedules under testing/synctest (go1.26.8 test binary)
+		ser, _ := b.buildE5only()
+		ser.phase = "lexer schedules (serialized)"
+		tcl := tc
+		tcl.budget = tc.budget / 2
+		srl, v := ser.explore(prop, tier, seed, workers, tcl, avoid, kf, &lines, &knownHit)
+		violations += v
+		phases = map[string]interface{}{"hostile_arguments": phaseInfo(sr), "lexer_schedules": phaseInfo(srl)}
+		merged := *sr
+		merged.sums = append(append([]summary{}, sr.sums...), srl.sums...)
+		merged.traces += srl.traces
+		merged.states += srl.states
+		merged.scheds += srl.scheds
+		merged.wall += srl.wall
+		sr = &merged
+	}
 	samples := b.samples(prop, tier, seed, workers, avoid)
 	writeEvidence(prop, tier, seed, b, sr, samples, avoid, knownHit, violations, time.Since(start).Seconds())
+	phases = nil
 	for _, l := range lines {
 		fmt.Println(l)
 	}
